@@ -13,6 +13,14 @@ replies
   xf:         np (<n> | err <kind>) nd <ndim coded> <ndim fixed> av (err <kind> | vec <k> vals… | K 16 entries) C <res> F <res>
       res := err <kind> | ok <wf 0/1> <mat h> <mat tgt> av (err <kind> | vec <k> vals… | K 16 entries)
   C = the behaviour of the code as found, F = with the proposed patches applied.
+  shape/img replies end with  I <res> J <res>: the same two variants of the in-place update
+  (`from_vector_inplace`, i.e. `Shape.fvi` / `Img.fvi`); for xf the in-place update is C / F itself and the
+  reply ends with  X <mat h>: the receiver's matrix after a failed in-place update.
+  imgn  = img with <k> before the vector:  N <res of from_vector(v, n_channels=k)> <n channels> K <rows> (<len> vals…)*
+      (K = as_vector(keep_channels=True) of the receiver)
+  dt <Cls> <mask all true 0/1> <own dtype> <vector dtype>
+      -> fv <dtype of from_vector(v)'s array> av <dtype of its as_vector()> ip <dtype after from_vector_inplace(v)>
+         own <dtype of the receiver's as_vector()>
 -/
 import MenpoModel.Core.Codec
 import MenpoModel.Core.Vectorize
@@ -68,6 +76,13 @@ def xfRes (e : Except Err Xf) : String :=
   | .error k => fmtErr k
   | .ok x => s!"ok {fmtB x.wf} {fmtMatD x.h} {fmtMatD x.tgt} av {xfAv x}"
 
+def dtOf : String → Dt
+  | "bool" => .bool | "uint8" => .uint8 | "int64" => .int64 | "float32" => .float32 | "float64" => .float64
+  | _ => .other
+def fmtDt : Dt → String
+  | .bool => "bool" | .uint8 => "uint8" | .int64 => "int64" | .float32 => "float32" | .float64 => "float64"
+  | .other => "other"
+
 def step (toks : List String) : String :=
   match toks with
   | "shape" :: rest =>
@@ -77,7 +92,7 @@ def step (toks : List String) : String :=
         pure ((⟨c, d, pts, nv, tris, ex, lms⟩ : Shape), v)) rest with
     | none => "bad-op"
     | some (s, v) =>
-      s!"np {s.nParams} av {fmtVec s.asVec} C {shapeRes (s.fromVec coded v)} F {shapeRes (s.fromVec fixed v)}"
+      s!"np {s.nParams} av {fmtVec s.asVec} C {shapeRes (s.fromVec coded v)} F {shapeRes (s.fromVec fixed v)} I {shapeRes (s.fvi coded v)} J {shapeRes (s.fvi fixed v)}"
   | "img" :: rest =>
     match runP (do
         let c ← pCls; let shape ← pList pNat; let nch ← pNat
@@ -86,7 +101,7 @@ def step (toks : List String) : String :=
         pure ((⟨c, shape, chunks (prod shape) nch flat, mask, lms⟩ : Img), v)) rest with
     | none => "bad-op"
     | some (x, v) =>
-      s!"np {x.nParams} av {fmtVec x.asVec} C {imgRes (x.fromVec v)} F {imgRes (x.fromVec v)}"
+      s!"np {x.nParams} av {fmtVec x.asVec} C {imgRes (x.fromVec v)} F {imgRes (x.fromVec v)} I {imgRes (x.fvi v)} J {imgRes (x.fvi v)}"
   | "xf" :: rest =>
     match runP (do
         let c ← pCls; let h ← pMat; let src ← pMat; let tgt ← pMat; let v ← pList pRat
@@ -96,7 +111,23 @@ def step (toks : List String) : String :=
       let np := match x.nParams with
         | .ok n => toString n
         | .error k => fmtErr k
-      s!"np {np} nd {x.asVecNdim coded} {x.asVecNdim fixed} av {xfAv x} C {xfRes (x.fromVec coded v)} F {xfRes (x.fromVec fixed v)}"
+      s!"np {np} nd {x.asVecNdim coded} {x.asVecNdim fixed} av {xfAv x} C {xfRes (x.fromVec coded v)} F {xfRes (x.fromVec fixed v)} X {fmtMatD (x.afterFailedFvi v).h}"
+  | "imgn" :: rest =>
+    match runP (do
+        let c ← pCls; let shape ← pList pNat; let nch ← pNat
+        let flat ← pMany pRat (nch * prod shape)
+        let mask ← pList pBool; let lms ← pLms; let kk ← pNat; let v ← pList pRat
+        pure ((⟨c, shape, chunks (prod shape) nch flat, mask, lms⟩ : Img), kk, v)) rest with
+    | none => "bad-op"
+    | some (x, kk, v) =>
+      let nres := match x.fromVecN kk v with
+        | .error k => fmtErr k
+        | .ok y => s!"ok {fmtB y.wf} {y.lms.length} {fmtVec y.asVec} {fmtVec y.chans.flatten} {y.nCh}"
+      s!"N {nres} K {x.asVecKeep.length}" ++ String.join (x.asVecKeep.map fun r => " " ++ fmtVec r)
+  | ["dt", c, full, own, vec] =>
+    let r := rowOf (clsOf c)
+    let fv := fromVecDtype r (full == "1") (dtOf own) (dtOf vec)
+    s!"fv {fmtDt fv} av {fmtDt (asVecDtype r fv)} ip {fmtDt (fviDtype r.fvi (full == "1") (dtOf own) (dtOf vec))} own {fmtDt (asVecDtype r (dtOf own))}"
   | _ => "bad-op"
 
 end MenpoModel.Drive.C05
